@@ -1,6 +1,6 @@
 (** C16: specification and proofs about Model/ClientID.v. *)
 From Coq Require Import List NArith Bool Arith Lia.
-From AGH Require Import Base.Run Base.Bytes Base.Dom Base.PathClean Model.ClientID.
+From AGH Require Import Base.Run Base.Bytes Base.Dom Base.PathClean Model.GoLower Proofs.GoLower Model.ClientID.
 Import ListNotations.
 Local Open Scope N_scope.
 
@@ -56,7 +56,7 @@ Proof.
   rewrite firstn_sub_label.
   destruct (validate_hostname_label x) eqn:V; [discriminate|].
   intros [= <-] _. exists x. split; [repeat split; auto|].
-  split; [apply validate_hostname_label_spec, V|reflexivity].
+  split; [apply validate_hostname_label_spec, V|apply go_to_lower_validated, V].
 Qed.
 
 Lemma from_server_name_sub host cli strict x :
@@ -72,7 +72,9 @@ Proof.
   assert (eqb_bytes host cli = false) as -> by (apply eqb_bytes_neq; congruence).
   assert (is_immediate_subdomain cli host = true) as ->.
   { apply is_immediate_subdomain_spec. exists x. exact Hs. }
-  cbn [negb]. destruct Hs as (_ & _ & ->). rewrite firstn_sub_label. reflexivity.
+  cbn [negb]. destruct Hs as (_ & _ & ->). rewrite firstn_sub_label.
+  destruct (validate_hostname_label x) eqn:V; [reflexivity|].
+  rewrite (go_to_lower_validated _ V). reflexivity.
 Qed.
 
 Lemma from_server_name_outside host cli strict :
@@ -111,7 +113,7 @@ Proof.
              | [] => CidOk []
              | [id] => match validate_hostname_label id with
                        | Some e => CidErr (EPathLabel e)
-                       | None => CidOk (lower id)
+                       | None => CidOk (go_to_lower id)
                        end
              | _ :: _ :: _ => CidErr EPathExtra
              end
@@ -124,7 +126,8 @@ Proof.
     destruct r as [|x [|y r]]; [intros [= <-]; congruence| |discriminate].
     destruct (validate_hostname_label x) eqn:V; [discriminate|]. intros [= <-] _.
     exists x. inversion Hf as [|? ? _ Hf']; subst. inversion Hf' as [|? ? Hx _]; subst.
-    split; [exact Hc|]. split; [exact Hx|]. split; [apply validate_hostname_label_spec, V|reflexivity]. }
+    split; [exact Hc|]. split; [exact Hx|].
+    split; [apply validate_hostname_label_spec, V|apply go_to_lower_validated, V]. }
   destruct s0 as [|c s0].
   - (* rooted: first element empty, dropped *)
     intros H1 H2. inversion Hn as [|? ? _ Hn']; subst.
@@ -153,13 +156,23 @@ Lemma from_doh_path_id p x :
     | None => CidOk (lower x)
     end.
 Proof.
+  assert (Hl : match validate_hostname_label x with
+               | Some e => CidErr (EPathLabel e)
+               | None => CidOk (go_to_lower x)
+               end =
+               match validate_hostname_label x with
+               | Some e => CidErr (EPathLabel e)
+               | None => CidOk (lower x)
+               end).
+  { destruct (validate_hostname_label x) eqn:V; [reflexivity|].
+    rewrite (go_to_lower_validated _ V). reflexivity. }
   intros [[Hc|Hc] Hm]; unfold from_doh_path; rewrite Hc.
   - cbn [split]. unfold slash at 1. rewrite N.eqb_refl. rewrite (split_path_id x Hm).
-    cbv beta iota zeta. rewrite eqb_bytes_refl. reflexivity.
+    cbv beta iota zeta. rewrite eqb_bytes_refl. exact Hl.
   - rewrite (split_path_id x Hm). cbv beta iota zeta.
     replace (match dns_query with [] => [x] | _ :: _ => [dns_query; x] end) with [dns_query; x]
       by reflexivity.
-    rewrite eqb_bytes_refl. reflexivity.
+    rewrite eqb_bytes_refl. exact Hl.
 Qed.
 
 Lemma from_doh_path_plain p : path_plain p -> from_doh_path p = CidOk [].
@@ -221,12 +234,14 @@ Proof.
         apply eqb_bytes_eq in E0. subst.
         destruct r1 as [|x [|y r2]]; [left; rewrite <- Hj; reflexivity| |discriminate].
         destruct (validate_hostname_label x) eqn:V; [discriminate|].
-        injection Ep as Ep. destruct x; [discriminate V|discriminate Ep].
+        injection Ep as Ep. rewrite (go_to_lower_validated _ V) in Ep.
+        destruct x; [discriminate V|discriminate Ep].
       * destruct (eqb_bytes (c :: s0) dns_query) eqn:E0; cbn [negb] in Ep; [|discriminate].
         apply eqb_bytes_eq in E0. rewrite E0 in *.
         destruct r0 as [|x [|y r2]]; [right; rewrite <- Hj; reflexivity| |discriminate].
         destruct (validate_hostname_label x) eqn:V; [discriminate|].
-        injection Ep as Ep. destruct x; [discriminate V|discriminate Ep].
+        injection Ep as Ep. rewrite (go_to_lower_validated _ V) in Ep.
+        destruct x; [discriminate V|discriminate Ep].
     + injection H as <-.
       destruct (from_doh_path_sound _ _ Ep) as (x & H1 & H2 & H3); [discriminate|].
       destruct (Hfin x H2 H3) as [Hv Hl].
@@ -649,3 +664,110 @@ Proof. reflexivity. Qed.
 (** The Host header is reported as the origin only when there is no TLS state. *)
 Lemma from_host_only_without_tls r : name_from_host r = true -> d_tls_sni r = None.
 Proof. unfold name_from_host. destruct (d_tls_sni r); [discriminate|reflexivity]. Qed.
+
+(** * Round 5: the label is validated AS SENT
+
+    strings.ToLower is Unicode aware (Model/GoLower.v): were the label
+    lower-cased first, "<U+212A>ate" would validate as "kate".  The code
+    validates first; what follows holds for every byte string, valid UTF-8
+    or not. *)
+
+(** A returned ClientID is the lower-casing of a label that was a valid
+    host-name label -- hence pure ASCII -- in the bytes the client sent. *)
+Theorem label_valid_as_sent p host strict sni h id :
+  client_id_of p host strict sni h = CidOk id -> id <> [] ->
+  exists x, valid_label x /\ is_ascii x = true /\ id = go_to_lower x /\ id = lower x /\
+    ((p = DoH /\ exists r, h = Some r /\ path_id (d_path r) x) \/
+     (reaches_sni p h /\ host <> [] /\
+      exists cli, server_name_of p sni h = inr cli /\ immediate_sub cli host x)).
+Proof.
+  intros H Hid. destruct (sound _ _ _ _ _ _ H Hid) as (_ & _ & _ & [(Hp & r & x & Hh & Hx & Hv & Hl)|(Hr & Hh & cli & x & Hs & Hx & Hv & Hl)]).
+  - exists x. split; [exact Hv|]. split; [apply valid_label_is_ascii, Hv|].
+    split; [rewrite (go_to_lower_valid _ Hv); exact Hl|]. split; [exact Hl|].
+    left. split; [exact Hp|]. exists r. auto.
+  - exists x. split; [exact Hv|]. split; [apply valid_label_is_ascii, Hv|].
+    split; [rewrite (go_to_lower_valid _ Hv); exact Hl|]. split; [exact Hl|].
+    right. split; [exact Hr|]. split; [exact Hh|]. exists cli. auto.
+Qed.
+
+(** The other order, for comparison: lower-case first, validate the result. *)
+Definition from_server_name_lower_first (host cli : bytes) (strict : bool) : cid_res :=
+  if eqb_bytes host cli then CidOk []
+  else if negb (is_immediate_subdomain cli host) then
+    (if strict then CidErr EMismatch else CidOk [])
+  else
+    let id := go_to_lower (firstn (length cli - length host - 1) cli) in
+    match validate_hostname_label id with
+    | Some e => CidErr (ESniLabel e)
+    | None => CidOk id
+    end.
+
+Definition from_doh_path_lower_first (path : bytes) : cid_res :=
+  let parts := split slash (clean path) in
+  let parts := match parts with [] :: r => r | _ => parts end in
+  match parts with
+  | [] => CidErr EPathShape
+  | p0 :: r =>
+      if negb (eqb_bytes p0 dns_query) then CidErr EPathShape
+      else match r with
+           | [] => CidOk []
+           | [id] =>
+               match validate_hostname_label (go_to_lower id) with
+               | Some e => CidErr (EPathLabel e)
+               | None => CidOk (go_to_lower id)
+               end
+           | _ :: _ :: _ => CidErr EPathExtra
+           end
+  end.
+
+(** Outcome up to the kind of error (a label can change its length under
+    Unicode lower-casing, so "too long" and "bad rune" may swap). *)
+Definition ok_id (r : cid_res) : option bytes :=
+  match r with CidOk id => Some id | CidErr _ => None end.
+
+Lemma label_orders_agree x :
+  has_special x = false ->
+  ok_id (match validate_hostname_label (go_to_lower x) with
+         | Some e => CidErr (ESniLabel e) | None => CidOk (go_to_lower x) end) =
+  ok_id (match validate_hostname_label x with
+         | Some e => CidErr (ESniLabel e) | None => CidOk (go_to_lower x) end).
+Proof.
+  intros Hs. pose proof (lower_first_exact x Hs) as Hex.
+  rewrite <- !validate_hostname_label_spec in Hex.
+  destruct (validate_hostname_label x) eqn:V.
+  - destruct (validate_hostname_label (go_to_lower x)) eqn:V'; [reflexivity|].
+    destruct Hex as [Hex _]. specialize (Hex eq_refl). discriminate.
+  - destruct Hex as [_ Hex]. rewrite (Hex eq_refl). reflexivity.
+Qed.
+
+(** The two orders give the same ClientID / the same failure on every name
+    whose label is free of U+212A and U+0130 ... *)
+Theorem lower_first_agrees host cli strict :
+  (forall x, immediate_sub cli host x -> has_special x = false) ->
+  ok_id (from_server_name_lower_first host cli strict) = ok_id (from_server_name host cli strict).
+Proof.
+  intros Hsp. unfold from_server_name_lower_first, from_server_name.
+  destruct (eqb_bytes host cli); [reflexivity|].
+  destruct (is_immediate_subdomain cli host) eqn:E; cbn [negb]; [|reflexivity].
+  apply is_immediate_subdomain_spec in E as (x & Hx & Hm & ->).
+  rewrite firstn_sub_label.
+  apply label_orders_agree, Hsp. repeat split; auto.
+Qed.
+
+(** ... and differ on a label with the Kelvin sign: strict check off,
+    "<U+212A>ate.example.com" is an ERROR in the code's order and the
+    ClientID "kate" in the other one. *)
+Definition ex_kelvin_cli : bytes := kelvin_ate ++ dot :: ex_host.
+
+Theorem lower_first_refuted :
+  immediate_sub ex_kelvin_cli ex_host kelvin_ate /\ ~ valid_label kelvin_ate /\
+  from_server_name ex_host ex_kelvin_cli false = CidErr (ESniLabel LBadRune) /\
+  client_id_of DoT ex_host false (Some ex_kelvin_cli) None = CidErr (ESniLabel LBadRune) /\
+  from_server_name_lower_first ex_host ex_kelvin_cli false = CidOk kate /\
+  from_doh_path (slash :: dns_query ++ slash :: kelvin_ate) = CidErr (EPathLabel LBadRune) /\
+  from_doh_path_lower_first (slash :: dns_query ++ slash :: kelvin_ate) = CidOk kate.
+Proof.
+  split; [split; [discriminate|split; reflexivity]|]. split.
+  { rewrite <- validate_hostname_label_spec. vm_compute. discriminate. }
+  vm_compute. repeat split; reflexivity.
+Qed.
